@@ -580,6 +580,7 @@ func compareMulti(os []multiOutcome, validators bool) {
 		same := sameDocs(base.docs, o.docs)
 		if !same {
 			vx.Key("feat", senFeature2(os))
+			vx.Key("bom", bomLabel(multiBuf))
 		}
 		vx.Assert("agree-docs:"+o.name, same)
 	}
